@@ -74,10 +74,14 @@ class Keys:
         self.ec = {c: ECC.generate(curve=c) for c in ('P-256', 'P-384', 'P-521')}
         self.ed = ECC.generate(curve='ed25519')
         self.rsa = RSA.generate(2048)
+        # moduli whose bit length is not a multiple of 8 (signature = ceil(bits / 8) octets; 257 octets is beyond the 252 limit
+        # of the shrinkable SignatureValue)
+        self.rsa_odd = {bits: RSA.generate(bits) for bits in (1028, 2050)}
         self.hmac_key = b'0123456789abcdef'
 
-    def signers(self, for_interest=False):
-        """[(label, signer, verify(sig_ptrs)->bool)] for every shipped signer."""
+    def signers(self, for_interest=False, only=None):
+        """[(label, signer, verify(sig_ptrs)->bool)] for every shipped signer (only=label: just that one -- importing an
+        RSA key costs milliseconds, and callers that want one fresh signer per case should not pay for all of them)."""
         from ndn.security.signer import DigestSha256Signer, HmacSha256Signer, NullSigner
         from ndn.security.signer.sha256_ecdsa_signer import Sha256WithEcdsaSigner
         from ndn.security.signer.sha256_rsa_signer import Sha256WithRsaSigner
@@ -98,18 +102,39 @@ class Keys:
             }
             for c, k in self.ec.items():
                 self._checkers['ecdsa-' + c] = KV.EccChecker.from_key('/key', k.public_key().export_key(format='DER'))
+            for bits, k in self.rsa_odd.items():
+                self._checkers[f'rsa-{bits}'] = KV.RsaChecker.from_key('/key', k.publickey().export_key('DER'))
         ck = self._checkers
-        out = [('digest', DigestSha256Signer(for_interest), None),
-               ('hmac', HmacSha256Signer(kl, self.hmac_key), both(lambda p: KV.verify_hmac(self.hmac_key, p), ck['hmac'])),
-               ('null', NullSigner(), None),
-               ('rsa', Sha256WithRsaSigner(kl, self.rsa.export_key('DER')),
-                both(lambda p: KV.verify_rsa(self.rsa.publickey(), p), ck['rsa'])),
-               ('ed25519', Ed25519Signer(kl, self.ed.export_key(format='DER')),
-                both(lambda p: KV.verify_ed25519(self.ed.public_key(), p), ck['ed25519']))]
+        want = (lambda lb: only is None or lb == only)
+        out = []
+        if want('digest'):
+            out.append(('digest', DigestSha256Signer(for_interest), None))
+        if want('hmac'):
+            out.append(('hmac', HmacSha256Signer(kl, self.hmac_key), both(lambda p: KV.verify_hmac(self.hmac_key, p), ck['hmac'])))
+        if want('null'):
+            out.append(('null', NullSigner(), None))
+        if want('rsa'):
+            out.append(('rsa', Sha256WithRsaSigner(kl, self._der('rsa', self.rsa)),
+                        both(lambda p: KV.verify_rsa(self.rsa.publickey(), p), ck['rsa'])))
+        if want('ed25519'):
+            out.append(('ed25519', Ed25519Signer(kl, self.ed.export_key(format='DER')),
+                        both(lambda p: KV.verify_ed25519(self.ed.public_key(), p), ck['ed25519'])))
         for c, k in self.ec.items():
-            out.append(('ecdsa-' + c, Sha256WithEcdsaSigner(kl, k.export_key(format='DER')),
-                        both(lambda p, k=k: KV.verify_ecdsa(k.public_key(), p), ck['ecdsa-' + c])))
+            if want('ecdsa-' + c):
+                out.append(('ecdsa-' + c, Sha256WithEcdsaSigner(kl, k.export_key(format='DER')),
+                            both(lambda p, k=k: KV.verify_ecdsa(k.public_key(), p), ck['ecdsa-' + c])))
+        for bits, k in self.rsa_odd.items():
+            if want(f'rsa-{bits}'):
+                out.append((f'rsa-{bits}', Sha256WithRsaSigner(kl, self._der(f'rsa-{bits}', k)),
+                            both(lambda p, k=k: KV.verify_rsa(k.publickey(), p), ck[f'rsa-{bits}'])))
         return out
+
+    def _der(self, label, key):
+        if not hasattr(self, '_ders'):
+            self._ders = {}
+        if label not in self._ders:
+            self._ders[label] = key.export_key('DER')
+        return self._ders[label]
 
 
 def rand_interest_args(rng, big=False):
